@@ -240,7 +240,8 @@ class Lexer:
             try:
                 with file_path.open("r", encoding="utf-8") as file:
                     raw_string = file.read()
-            except FileNotFoundError as error:
+            except (FileNotFoundError, IsADirectoryError, NotADirectoryError) as error:
+                # a folder whose name ends in .jmc is not a JMC file; neither is anything "below" a file (x.jmc/y)
                 raise JMCFileNotFoundError(
                     f"JMC file not found: {file_path.resolve().as_posix()}"
                 ) from error
@@ -309,6 +310,9 @@ class Lexer:
 
                     new_paths = folder.glob("**/*.jmc")
                     for new_path in new_paths:
+                        if not new_path.is_file():
+                            # a folder whose name ends in .jmc: its files are listed on their own
+                            continue
                         self.parse_file(file_path=new_path.resolve())
                         self.__update_load(file_path_str, raw_string)
                     continue
